@@ -12,6 +12,8 @@ import Homonim.Model.Mask
 import Homonim.Model.Convert
 import Homonim.Model.Layout
 import Homonim.Model.Stats
+import Homonim.Model.Bands
+import Homonim.Model.FS
 open Homonim
 
 def ints (ts : List String) : Option (List Int) := ts.mapM String.toInt?
@@ -167,6 +169,67 @@ def handlePStats (toks : List String) : String :=
     | _, _ => "bad-args"
   | _ => "bad-args"
 
+def parseBand (t : String) : Option BandMeta :=
+  match t.splitOn ":" with
+  | [flags, wl] =>
+    match flags.toList with
+    | [a, m, c] =>
+      let ci : ColorInterp := if c = 'r' then .red else if c = 'g' then .green else if c = 'b' then .blue else .other
+      let w : Option (Option Rat) := if wl = "_" then some none else (parseRat wl).map some
+      w.map fun w => ⟨a = '1', m = '1', ci, w⟩
+    | _ => none
+  | _ => none
+
+def parseSel (t : String) : Option (Option (List Nat)) :=
+  if t = "_" then some none else if t = "[]" then some (some []) else
+    ((t.splitOn ",").mapM String.toNat?).map some
+
+def showNats (l : List Nat) : String := ",".intercalate (l.map toString)
+
+/-- match <force> <tol> S <sel> <bands...> R <sel> <bands...> -/
+def handleMatch (toks : List String) : String :=
+  match toks with
+  | f :: tol :: "S" :: selS :: rest =>
+    let sT := rest.takeWhile (· ≠ "R")
+    match (rest.dropWhile (· ≠ "R")).drop 1 with
+    | selR :: rT =>
+      match f.toNat?, parseRat tol, parseSel selS, parseSel selR, sT.mapM parseBand, rT.mapM parseBand with
+      | some f, some tol, some selS, some selR, some sb, some rb =>
+        match matchPair sb rb selS selR (f ≠ 0) tol with
+        | .ok (s, r) => s!"ok s={showNats s} r={showNats r}"
+        | .error e => "err " ++ (match e with
+          | .invalidBand => "invalid-band" | .alphaBand => "alpha-band" | .noBands => "no-bands"
+          | .fewerRef => "fewer-ref" | .unmatchedWavelength => "unmatched-wavelength" | .unmatchedCount => "unmatched-count")
+      | _, _, _, _, _, _ => "bad-args"
+    | _ => "bad-args"
+  | _ => "bad-args"
+
+/-- fshist F <name:content>... C <corr> <param|_> <overwrite> <corrContent> <paramContent> C ... -/
+def handleFs (toks : List String) : String :=
+  let initT := (toks.drop 2).takeWhile (· ≠ "C")
+  let rest := toks.dropWhile (· ≠ "C")
+  let init : Option FS := initT.mapM fun t => match t.splitOn ":" with
+    | [n, c] => c.toNat?.map fun c => (n, c)
+    | _ => none
+  -- split calls on "C"
+  let groups : List (List String) := (rest.foldl (fun (acc : List (List String)) t =>
+      if t = "C" then [] :: acc else match acc with
+        | [] => [[t]]
+        | x :: xs => (t :: x) :: xs) []).map List.reverse |>.reverse
+  let calls : Option (List Call) := groups.mapM fun g => match g with
+    | [corr, param, ov, cc, pc] =>
+      match ov.toNat?, cc.toNat?, pc.toNat? with
+      | some ov, some cc, some pc => some ⟨corr, if param = "_" then none else some param, ov ≠ 0, cc, pc⟩
+      | _, _, _ => none
+    | _ => none
+  match init, calls with
+  | some fs, some cs =>
+    let r := runHistory fs cs
+    let outs := ",".intercalate (r.2.map fun o => match o with | .ok => "ok" | .fileExists => "exists")
+    let files := (r.1.map fun e => s!"{e.1}:{e.2}").toArray.qsort (· < ·) |>.toList
+    s!"{outs} | " ++ " ".intercalate files
+  | _, _ => "bad-args"
+
 def handle (toks : List String) : String :=
   match toks with
   | "blocks1" :: rest =>
@@ -242,6 +305,8 @@ def handle (toks : List String) : String :=
       s!"{if r.1.northUp then 1 else 0} {r.1.crs} {if r.2.northUp then 1 else 0} {r.2.crs}"
     | _ => "bad-args"
   | "fit" :: rest => handleFit rest
+  | "fshist" :: _ => handleFs toks
+  | "match" :: rest => handleMatch rest
   | "cmpstats" :: rest => handleCmp rest
   | "pstats" :: rest => handlePStats rest
   | "convert" :: rest => handleConvert rest
